@@ -4,6 +4,7 @@ import Properties.C01Index
 import Properties.C01Prims
 import Properties.C01Walk
 import Properties.C01Cycle
+import Properties.C01Dispatch
 #print axioms Hive.C01.eq_of_perm_of_sorted
 #print axioms Hive.C01.sortBy_eq_of_perm
 #print axioms Hive.C01.id_order_invariant
@@ -48,3 +49,5 @@ import Properties.C01Cycle
 #print axioms Hive.C01.cancelRequests_permW
 #print axioms Hive.C01.preStep_permW
 #print axioms Hive.C01.full_run_order_independent
+#print axioms Hive.C01.checkFleet_perm
+#print axioms Hive.C01.checkRun_perm
